@@ -15,7 +15,7 @@
 //!   use the mirror.
 //! * De-duplication key: a harness mirror of the documented slot state (stream offset, received
 //!   index set, window, final size, expected frames, last offset, idle, buffer provenance
-//!   intervals) + the state of the history-dependent honest-sender monitor. Soundness of merging:
+//!   intervals; behaviour as of /repo 7409f59) + the state of the history-dependent honest-sender monitor. Soundness of merging:
 //!   the key contains every field that `recv` reads (`next_frame_offset` and the histogram clock
 //!   feed metrics only), so two histories with equal keys leave the real object in states that
 //!   answer every future frame identically PROVIDED the mirror is faithful. Faithfulness is
@@ -1424,9 +1424,9 @@ pub fn run(args: &vpc::Args) -> ! {
     }
     // bounds (tuning overrides for experiments: C17_FULL_Q1, C17_FULL_Q2, C17_BUDGET_DEPTH, C17_BUDGET_HOSTILE)
     let envn = |k: &str, d: usize| std::env::var(k).ok().and_then(|v| v.parse().ok()).unwrap_or(d);
-    let full_depth = [envn("C17_FULL_Q1", run.tier.pick(6, 8)), envn("C17_FULL_Q2", run.tier.pick(6, 7))];
+    let full_depth = [envn("C17_FULL_Q1", run.tier.pick(6, 10)), envn("C17_FULL_Q2", run.tier.pick(6, 9))];
     let budget = Mode {
-        depth: envn("C17_BUDGET_DEPTH", run.tier.pick(7, 8)),
+        depth: envn("C17_BUDGET_DEPTH", run.tier.pick(7, 10)),
         max_hostile: Some(envn("C17_BUDGET_HOSTILE", run.tier.pick(1, 2)) as u8),
         audit_depth: 2,
         name: "hostile-budget",
